@@ -74,7 +74,25 @@ def sig(case, what):
         if o is None:
             return '-'
         return o['cls'] if o['src'] == 'qube' else o['src']
-    return '%s:%s:%s:%s' % (case['op'], nm(case.get('a')), nm(case.get('b')), what)
+    def derivs(o):
+        return bool(o) and bool((o.get('prov') or {}).get('derivs')) and not o.get('denom')
+    tag = ':derivs' if derivs(case.get('a')) or derivs(case.get('b')) else ''
+    if case['op'] in R.IOPS and not case['a']['shape'] and not case['a'].get('numer') and not case['a'].get('denom'):
+        tag += ':single'              # the target holds a single Python value
+    return '%s:%s:%s:%s%s' % (case['op'], nm(case.get('a')), nm(case.get('b')), what, tag)
+
+
+def must_accept_inplace(case):
+    """cells where the in-place form is documented to exist: same class on both sides (not Boolean), or a Scalar / Boolean
+    object as the right operand of *= /= //= %="""
+    a, b = case['a'], case['b']
+    if a['cls'] == 'Boolean' or b['src'] != 'qube':
+        return False
+    if case['op'] in ('iadd', 'isub'):
+        return a['cls'] == b['cls']
+    if a['cls'] == 'Matrix3':         # "in-place multiplication only works for a Matrix3"
+        return case['op'] == 'imul' and b['cls'] == 'Matrix3'
+    return b['cls'] in ('Scalar',) or (case['op'] in ('imul',) and a['cls'] == b['cls'] and a['cls'] in ('Matrix', 'Matrix3'))
 
 
 def direct_form(case):
@@ -157,6 +175,9 @@ def oracle(case):
             return (sig(case, 'shape'), 'broadcasted_shape gave %s, NumPy rule %s' % (exc or list(r), ref[1]['shape']))
         return None
     mixed = case.get('b') is not None and (case['a']['src'] == 'qube') != (case['b']['src'] == 'qube')
+    inplace = case['op'] in R.IOPS
+    if inplace and exc is None and isinstance(r, R.Qube) and not getattr(r, '_c04_same_', True):
+        return (sig(case, 'rebound'), '%s returned a new object instead of the target' % case['op'])
     if ref is not None and ref[0] == 'reject':
         if exc is None:
             return (sig(case, 'accepted-incompatible'),
@@ -164,15 +185,30 @@ def oracle(case):
         return None
     if ref is not None and ref[0] == 'ok':
         if exc is not None:
-            if mixed:
+            if mixed or (inplace and not must_accept_inplace(case)):
                 return None          # "whenever both are accepted"
             return (sig(case, 'rejected-compatible:' + type(exc).__name__),
                     '%s rejected compatible operands: %s' % (case['op'], str(exc)[:120]))
         why = compare(case, ref[1], r)
         if why:
             return (sig(case, 'differs'), '%s: %s' % (case['op'], why))
+    # an in-place form the reference does not specify (matrix /= matrix, quaternions ...): still "in-place = direct",
+    # judged on the real code itself
+    if inplace and ref is None and exc is None and isinstance(r, R.Qube):
+        d = dict(case, op=R.DIRECT[case['op']])
+        d.pop('_ref', None)
+        try:
+            rd = R.run(d)
+        except Exception:
+            rd = None
+        if isinstance(rd, R.Qube) and rd._shape_ == r._shape_ and rd._item_ == r._item_:
+            keep = ~(R.expanded_mask(r) | R.expanded_mask(rd))
+            v1 = np.broadcast_to(np.asarray(r._values_, dtype=float), r._shape_ + r._item_)
+            v2 = np.broadcast_to(np.asarray(rd._values_, dtype=float), rd._shape_ + rd._item_)
+            if not np.allclose(v1[keep], v2[keep], rtol=1e-9, atol=1e-9):
+                return (sig(case, 'inplace-vs-direct'), '%s stores values that differ from the direct form' % case['op'])
     # reflected / mixed form against the direct form, on the real code
-    if mixed and exc is None and (ref is not None or case['op'] not in ('div', 'pow')):
+    if mixed and not inplace and exc is None and (ref is not None or case['op'] not in ('div', 'pow')):
         d = direct_form(case)
         if d is not None:
             try:
